@@ -101,6 +101,12 @@ class CleanPass(FunctionPass):
             "Inserting %s at the end of %s", block2.name, block1.name
         )
 
+        # block1 is the only predecessor of block2, so every phi in block2
+        # is a copy of its single incoming value:
+        for phi in block2.phis:
+            phi.replace_by(phi.get_value(block1))
+            phi.remove_from_block()
+
         # Remove the last jump:
         last_jump = block1.last_instruction
         block1.remove_instruction(last_jump)
